@@ -354,7 +354,7 @@ INDIV_CHECKS = {
 
 
 def optz(x):
-    return "None" if x is None else f"(Some {term(int(x))})"
+    return "(@None Z)" if x is None else f"(Some {term(int(x))})"
 
 
 def call_term(gt, phased, ps):
